@@ -4,6 +4,7 @@ import (
 	"context"
 	"encoding/base64"
 	"fmt"
+	"slices"
 	"sort"
 
 	apiv1 "k8s.io/api/core/v1"
@@ -507,7 +508,12 @@ func (hpr *hostPathRules) upsertRoute(
 				routeNsName := client.ObjectKeyFromObject(route.Source)
 
 				hostRule.GRPC = GRPC
-				hostRule.Policies = append(hostRule.Policies, pols...)
+				// several matches can land on one path rule: attach each policy to it once
+				for _, pol := range pols {
+					if !slices.Contains(hostRule.Policies, pol) {
+						hostRule.Policies = append(hostRule.Policies, pol)
+					}
+				}
 
 				hostRule.MatchRules = append(hostRule.MatchRules, MatchRule{
 					Source:       objectSrc,
